@@ -9,6 +9,9 @@ TGet == /\ IsEvent("Get") /\ Get
 \* generate_spec() called directly before the additional endpoint was added (endpoints = "main+late")
 TEarly == /\ IsEvent("Early") /\ scn.endpoints = "main+late" /\ gets = <<>>
           /\ {E.keys[k] : k \in DOMAIN E.keys} = EarlyKeys /\ Len(E.keys) = Cardinality(EarlyKeys) /\ UNCHANGED vars
-TraceNext == TGet \/ TEarly
+\* GET of the UI index page (which: "slash" = <ui path>/, "index" = <ui path>/index.html)
+TUi == /\ IsEvent("Ui") /\ HasUi /\ E.which \in {"slash", "index"}
+       /\ [status |-> E.status, ctype |-> E.ctype, points_at_spec |-> E.points_at_spec] = ExpectedUi /\ UNCHANGED vars
+TraceNext == TGet \/ TEarly \/ TUi
 TraceConstraint == Stable /\ Complete /\ Progress
 =============================================================================
